@@ -50,15 +50,24 @@ def _judge(ctx, case):
 def check_simple(case):
     x, y, n = case["x"], case["y"], case["n"]
     fails = []
-    xs, ys = RC.run("pconst", x, y, n, {})
     exp = [v for v in y[:-1] for _ in range(n)] + [y[-1]]
-    if [float(v) for v in ys] != [float(v) for v in exp]:
-        fails.append(fail("piecewise-constant-not-exact", {"got": ys, "expected": exp}, {"strategy": "pconst"}))
-    if len(x) >= 2:
-        xs, ys = RC.run("spline", x, y, n, {})
-        sc = max(1.0, max(abs(float(v)) for v in y))
-        if any(abs(float(a) - float(b)) > 1e-9 * sc for a, b in zip(ys[::n], y)):
-            fails.append(fail("spline-misses-original-point", {"got": ys[::n], "expected": y}, {"strategy": "spline"}))
+    sc = max(1.0, max(abs(float(v)) for v in y))
+    for st in ("pconst", "spline"):
+        obj = RC.cls(st)(np.array(x, dtype=float), np.array(y, dtype=float), n)
+        for call in (1, 2):
+            xs, ys = obj.rfa()
+            if st == "pconst" and [float(v) for v in ys] != [float(v) for v in exp]:
+                fails.append(fail("piecewise-constant-not-exact", {"call": call, "got": ys, "expected": exp}, {"strategy": "pconst", "call": call}))
+            if st == "spline" and any(abs(float(a) - float(b)) > 1e-9 * sc for a, b in zip(ys[::n], y)):
+                fails.append(fail("spline-misses-original-point", {"call": call, "got": ys[::n], "expected": y}, {"strategy": "spline", "call": call}))
+            # the caller owns what it was handed: edit it in place, then ask the same object again
+            try:
+                ys += 3.0
+                xs -= 0.5
+            except Exception:
+                pass
+            if fails:
+                break
     return fails, (len(x), n, tuple(y))
 
 
